@@ -19,12 +19,12 @@ func TestVF_C20_KeyProofParallel(t *testing.T) {
 	// draw the cases sequentially with rapid (generators only), then run them concurrently
 	var cases []c17Case
 	rapid.Check(t, func(rt *rapid.T) {
-		if len(cases) < rec.N(8, 24) {
+		if len(cases) < rec.N(8, 48) {
 			cases = append(cases, c17GenCase(rt, []string{"exp", "prime", "expstep", "multiplication"}[len(cases)%4], true))
 		}
 	})
 	_ = c17G()
-	reps := rec.N(2, 6)
+	reps := rec.N(2, 16)
 	for rep := 0; rep < reps; rep++ {
 		var wg sync.WaitGroup
 		var mu sync.Mutex
